@@ -104,7 +104,7 @@ func runFstree(c *cctx, viaDB bool) {
 		return
 	}
 	c.sb.freeze()
-	g := &nameGen{Root: c.sb.Root, Targets: c.sb.Targets, Inside: []string{"in1", "sub/in2", "sub", "rec1"}, Suffix: c.sb.Suffixes}
+	g := &nameGen{Root: c.sb.Root, Targets: c.sb.Targets, Inside: []string{"in1", "sub/in2", "sub", "rec1"}, Suffix: c.sb.Suffixes, Embed: c.sb.Embed}
 
 	for i, nk := range c.names(g) {
 		name := nk[0]
@@ -148,7 +148,13 @@ func runFstree(c *cctx, viaDB bool) {
 
 		// anti-vacuity: plain, creatable names must work (otherwise "rejects everything"
 		// would pass). Only demanded for clean names made of ordinary segments.
-		if ni.Kind == "plain" && canCreate {
+		// fstree gives up a query when the consumer does not take a record within one
+		// second of wall-clock time; on a loaded machine that is no verdict about the name
+		queryTimedOut := !r4.OK && strings.Contains(r4.Err, "query buffer full, timeout")
+		if queryTimedOut {
+			c.b.Count("query_wallclock_timeouts."+comp, 1)
+		}
+		if ni.Kind == "plain" && canCreate && !queryTimedOut {
 			c.b.Count("works_checked."+comp, 1)
 			bad := ""
 			switch {
